@@ -363,4 +363,7 @@ WITNESSES = [
     {"id": "C13.w-error-report-does-not-use-up-first-pdu-slot", "rule": "C13.R2", "file": PK,
      "old": "\tif (!rtr_socket->has_received_pdus) {\n\t\tif (rtr_socket->version == RTR_PROTOCOL_VERSION_1 && header.ver == RTR_PROTOCOL_VERSION_0 &&\n\t\t    header.type != ERROR) {",
      "new": "\tif (!rtr_socket->has_received_pdus && header.type != ERROR) {\n\t\tif (rtr_socket->version == RTR_PROTOCOL_VERSION_1 && header.ver == RTR_PROTOCOL_VERSION_0) {"},
+    {"id": "C13.w-downgrade-before-the-length-checks", "rule": "C13.R1", "file": PK,
+     "old": "\t// if header->len is < packet_header = corrupt data received\n\tif (header.len < sizeof(header)) {",
+     "new": "\tif (!rtr_socket->has_received_pdus && rtr_socket->version == RTR_PROTOCOL_VERSION_1 && header.ver == RTR_PROTOCOL_VERSION_0 &&\n\t    header.type != ERROR)\n\t\trtr_socket->version = RTR_PROTOCOL_VERSION_0;\n\t// if header->len is < packet_header = corrupt data received\n\tif (header.len < sizeof(header)) {"},
 ]
